@@ -34,6 +34,11 @@ def run(ctx):
         r3(ctx, facts, cfg)
         r4(ctx, facts, cfg)
         r5(ctx, facts, cfg)
+        from rules import c02
+        bn = {m.base: m for m in facts.fns if m.config == cfg and m.cls == c02.CLS and not m.rec.get("ctor") and not m.rec.get("dtor")}
+        if "empty" not in bn:
+            raise AnalysisBroken("UnboundedSPSCQueue::empty not found")
+        c02.check_empty_semantics(ctx, bn, rule="C05.R4c")
 
 
 def r1(ctx, facts, cfg):
@@ -59,6 +64,22 @@ def r1(ctx, facts, cfg):
     ctx.ob("C05.R1a", "_populate_transit_events_from_frontend_queues:one-clock-read", ok,
            "ts_now is taken once per pass before any queue is read (%s)" % why, fn=f)
     ctx.floor("C05.R1a", "per-queue read calls", len(reads), 2)
+    # R1c (units): timestamps are nanoseconds; the tick count of a duration in another unit may be tested for zero but must not be
+    # mixed into timestamp arithmetic (chrono arithmetic on the duration itself converts correctly)
+    bad = []
+    nonns = 0
+    for c in f.calls(r"std::chrono::duration<.*>::count$"):
+        o = call_obj(c)
+        ty = (o.get("ty", "") if isnode(o) else "")
+        is_ns = "nanoseconds" in ty or "ratio<1, 1000000000>" in ty or "ratio<1L, 1000000000L>" in ty
+        if is_ns or not ty:
+            continue
+        nonns += 1
+        if not only_boolean_use(f, c):
+            bad.append("%s.count() at %s" % (ty, c["loc"]))
+    ctx.ob("C05.R1c", "_populate_transit_events_from_frontend_queues:grace-period-unit", not bad,
+           "the grace period enters the cut-off through chrono arithmetic (unit-converting); the raw tick count of a non-nanosecond duration is "
+           "only tested for zero, never subtracted from a nanosecond timestamp (%d such count() call(s)%s)" % (nonns, ("; mixed: " + ", ".join(bad)) if bad else ""), fn=f)
     for rf in facts.need(BW + "_read_and_decode_frontend_queue", cfg, floor=2):
         calls = need_some(rf.calls(r"::_populate_transit_event_from_frontend_queue$"), "decode call")
         p = rf.rec["params"][2]["did"]
@@ -240,3 +261,32 @@ def r5(ctx, facts, cfg):
         ctx.ob("C05.R5", site, ok,
                "the clock is read before the reservation / blocking loop and never afterwards; the header carries that value "
                "(clock sources: %d)" % len(clock_srcs), fn=f)
+
+
+def only_boolean_use(f, node, depth=0):
+    """the value of `node` is consumed only by a truth test (condition, !x, comparison with 0), possibly through a local that is itself
+    only used that way"""
+    p = f.parent(node)
+    child = node
+    while p is not None and p["k"] in ("ImplicitCastExpr", "ParenExpr", "ExprWithCleanups", "CXXStaticCastExpr", "CStyleCastExpr", "CXXFunctionalCastExpr"):
+        if p["k"] == "ImplicitCastExpr" and p.get("ck") == "IntegralToBoolean":
+            return True
+        child = p
+        p = f.parent(p)
+    if p is None:
+        return False
+    if p["k"] == "ConditionalOperator" and p.get("cond") is child:
+        return True
+    if p["k"] in ("IfStmt", "WhileStmt", "DoStmt", "ForStmt") and p.get("cond") is child:
+        return True
+    if p["k"] == "UnaryOperator" and p["op"] == "!":
+        return True
+    if p["k"] == "BinaryOperator" and p["op"] in ("==", "!=", ">", "<", ">=", "<=") and (const_val(p["lhs"]) == 0 or const_val(p["rhs"]) == 0):
+        return True
+    if p["k"] == "BinaryOperator" and p["op"] in ("&&", "||"):
+        return True
+    if p["k"] == "Var" and depth < 2:
+        did = p["did"]
+        uses = [x for x in f.walk() if x["k"] == "DeclRefExpr" and x.get("did") == did]
+        return bool(uses) and all(only_boolean_use(f, u, depth + 1) for u in uses)
+    return False
